@@ -30,7 +30,8 @@ LEVEL = "exploration"
 RULE = (
     "case = mapping config (Parent/Child/SubChild/Tag with nullable or NOT NULL FK, natural key with ON UPDATE CASCADE, post_update "
     "favourite; or adjacency-list Node) + history of <=40 ops with few intermediate flushes. Non-trivial: some flush emitted >=3 DML "
-    "statements over >=2 dependent tables (or >=2 statements on the self-referential table) and contained a delete or a re-parenting; "
+    "statements over >=2 dependent tables (or >=2 statements on the self-referential table) and contained a delete or a re-parenting, "
+    "or a flush in which a persistent row hands a primary-key / UNIQUE (single or composite) value over to a new row of the same table; "
     "distinct = canonical JSON of (config, ops)"
 )
 ASSUMPTIONS = [
@@ -42,7 +43,7 @@ ASSUMPTIONS = [
 ]
 
 C31_CODES = [
-    "new", "new", "new", "add", "set", "append", "append", "append", "remove", "remove", "replace", "replace", "clear",
+    "hand", "hand", "hand", "ucode", "ucode", "new", "new", "new", "add", "set", "append", "append", "append", "remove", "remove", "replace", "replace", "clear",
     "setparent", "setparent", "setparent", "clearparent", "tagadd", "tagadd", "tagremove", "pk", "pk", "fav", "fav",
     "delete", "delete", "delete", "delete", "flush", "commit", "rollback", "nested", "release",
 ]
@@ -161,7 +162,8 @@ def _check(case, ctx, shadow):
                 cls.append("scenario=" + case["scenario"])
             cls.append("flush-statements=" + ("0-2" if mon.max_stmts <= 2 else "3-5" if mon.max_stmts <= 5 else "6-9" if mon.max_stmts <= 9 else "10+"))
             for k in ("orphan-delete", "pk-change-flush", "mixed-flush", "repair-parent", "savepoint-depth-1", "delete-favourite-with-its-holder",
-                      "repoint-favourite-and-delete-old-target", "null-favourite-and-delete-old-target"):
+                      "repoint-favourite-and-delete-old-target", "null-favourite-and-delete-old-target",
+                      "unique-handover-pk", "unique-handover-single", "unique-handover-composite"):
                 if k in it.classes:
                     cls.append(k)
             if not cfg.get("fk_nullable", True):
@@ -171,7 +173,7 @@ def _check(case, ctx, shadow):
             if cfg.get("natpk"):
                 cls.append("natural-key-on-update-cascade")
             ctx.info("statements_judged_by_shadow_catalog", mon.checked)
-            ctx.note(case, mon.rich, classes=cls)
+            ctx.note(case, mon.rich or any(c.startswith("unique-handover") for c in it.classes), classes=cls)
 
 
 def check_enforced(case, ctx):
@@ -193,6 +195,10 @@ _PCT_TEMPLATES = {
                                                 ["commit", 0, 0, 0], ["fav", 0, 1, 1], ["delete", 1, 0, 0], ["new", 1, 3, 0], ["append", 0, 1, 0]],
     "favourite-null-and-delete-old-target": [["new", 0, 1, 0], ["new", 1, 1, 0], ["new", 1, 2, 0], ["append", 0, 0, 0], ["append", 0, 1, 0], ["fav", 0, 0, 1],
                                              ["flush", 0, 0, 0], ["fav", 0, 0, 0], ["set", 0, 2, 0], ["delete", 1, 0, 0]],
+    # a persistent row gives up a UNIQUE value (single / composite) or its natural primary key and a new row takes it in the same flush
+    "unique-handover-single": [["new", 2, 1, 0], ["new", 2, 2, 0], ["new", 0, 1, 0], ["commit", 0, 0, 0], ["set", 0, 1, 0], ["hand", 0, 0, 0], ["hand", 1, 1, 0]],
+    "unique-handover-composite": [["new", 2, 1, 0], ["new", 2, 2, 3], ["new", 0, 1, 0], ["commit", 0, 0, 0], ["new", 1, 1, 0], ["hand", 0, 1, 1], ["hand", 1, 0, 1]],
+    "unique-handover-pk": [["new", 0, 1, 0], ["new", 0, 2, 0], ["new", 1, 1, 0], ["append", 1, 0, 0], ["commit", 0, 0, 0], ["hand", 0, 0, 2], ["set", 0, 2, 0], ["hand", 1, 1, 2]],
     # re-parent the child, delete the old parent, add a new child in the same flush
     "reparent-and-delete-old-parent": [["new", 0, 1, 0], ["new", 0, 2, 0], ["new", 1, 1, 0], ["append", 0, 0, 0], ["commit", 0, 0, 0],
                                        ["append", 1, 0, 0], ["new", 1, 3, 0], ["append", 1, 1, 0], ["delete", 0, 0, 0]],
@@ -226,6 +232,10 @@ def _scenarios(tier):
                     for nullable in (True, False):
                         for name, ops in _PCT_TEMPLATES.items():
                             natpk = "passive" if (fk_on and name == "insert-subtree-and-move") else None
+                            if name == "unique-handover-pk":
+                                if not fk_on:
+                                    continue  # (passive_updates=False leaves children dangling mid-flush by design: not judged by the monitor)
+                                natpk = "passive"
                             yield {"scenario": name,
                                    "cfg": E.norm_cfg({"fam": "pct", "coll": coll, "bidir": bidir, "cascade": cascade, "fk_on": fk_on, "fk_nullable": nullable,
                                                       "fav": name.startswith("favourite-"), "inh": coll == "set", "natpk": natpk,
